@@ -9,6 +9,14 @@ CLAIMED = {
    technique="finite-domain abstract interpretation of the evaluators' HIR over the complete decision table (static; no execution)",
    text="Every cell of the satisfaction decision table (installed absent/lower/equal/higher x constraint none/<</<=/=/>=/>>) and every AND/OR composition of up to 2x2 is decided by abstract interpretation of both evaluators' type-checked HIR, with comparison operators identified by resolved trait method and operand role. The table is finite, so this is exhaustive; a swapped operator, operand order, any/all mix-up or presence rule is reported with the cell.",
    note="Trusted: rustc's HIR/typeck, debversion::Version's Ord (Debian version ordering), the hirai interpreter; the Relation::version()/name() accessors are assumed to return what was parsed (that is C10)."),
+ "C16": dict(level="other", ref="4/C16",
+   technique="abstract interpretation of the derive-generated from_paragraph/to_paragraph/update_paragraph impls (macro expansions in the type-checked HIR) against a list-of-pairs paragraph model, with a symbolic string domain for the (de)serialisers",
+   text="For each of the 12 deriving structs shipped in the workspace (158 fields) the generated code itself is interpreted over symbolic values with all optional fields present and all absent: key set/order, custom serialiser vs deserialiser agreement (from_paragraph(to_paragraph(v)) must be exactly Ok(v)), update touching only own keys, removal of absent optionals, a foreign field staying untouched, read-back after update, the missing-field error naming the field, genericity in the paragraph back-end and delegation of both back-end adapters. Decides the structural/codec part of the round trip for representative symbolic values; not a value-level proof for arbitrary strings.",
+   note="Atoms stand for valid component strings (no whitespace/syntax characters, distinct from keywords). Opaque field types (lossy Relations, Version, Url, NaiveDate, PathBuf, ParsedVcs) are assumed to print/parse an atom unchanged. Paragraph back-ends are assumed to be ordered lists (C04/C08). The macro is analysed through its expansions in the shipped structs, not for arbitrary struct definitions."),
+ "C18": dict(level="other", ref="4/C18",
+   technique="symbolic print/parse round trip: abstract interpretation of each Display/ToString and FromStr pair over literal-piece + atom strings; exhaustive over enumeration variants",
+   text="Every value codec found in the anchored files (19 types; Vcs::{to_field,from_field}; format_origin/parse_origin) is printed and parsed back inside the abstract interpreter: parse(print(v)) must be exactly {Ok(v)} for every enumeration variant and every Option-field combination of every record; pure enumerations must reject an unknown keyword and print distinct keywords. Enumerations are covered exhaustively, records per field position and separator.",
+   note="Atoms = valid component strings (non-empty, no whitespace/syntax characters, not a keyword/prefix). ParsedVcs (regex + slicing) and parse_identity are free-text codecs and are listed as undecided in the evidence, not claimed."),
 }
 NA_REASON = "check not built yet (construction in progress; see DESIGN.md section 9 build order)"
 
